@@ -23,6 +23,12 @@ CHECKS = {
  "C03": (X, "property-based testing: small-scope exhaustive enumeration of chunk maps + proptest random tables, ground-truth oracle from an independent encoder",
          "Every sample of every generated file is looked up through sample_count/sample_offset/read_sample and compared with the ground truth kept by the reference encoder that produced the file; chunk-map structure is enumerated exhaustively for small N, other dimensions and large N are sampled. Bounded search: absence beyond the explored scope is not shown.",
          "trusts the harness' reference encoder (no library code) and proptest; sizes <= 300 B/sample", "DESIGN.md 4/C03"),
+ "C04": (X, "property-based testing over the box value space: per-kind proptest strategies (46 kinds, shapes x values inside wire width), round-trip / size-exactness oracle in three stream contexts, re-encode fixpoint on mutated and reference encodings",
+         "For every generated value of every box kind the encoder's return value, box_size(), header and byte count must agree and decoding must restore an equal value and leave the stream exactly at the box end even with siblings or garbage behind; for bytes the decoder accepts (mutated encodings, reference encodings with 64-bit headers / spare bytes) re-encoding must be a fixpoint.",
+         "representable domain per DESIGN Appendix A; dinf values only via decoding (private field)", "DESIGN.md 4/C04"),
+ "C05": (X, "differential property-based testing against an independent reference codec (refmp4): byte diff of encoder output, field diff of decoder output on reference bytes in compact / 64-bit-header / spare-byte / padded-descriptor layouts, exhaustive AudioSpecificConfig product",
+         "The library's bytes must equal the reference encoder's for the same fields (reserved bits masked, ilst order ignored) and the library must decode every reference layout to the same fields; the AudioSpecificConfig product (93 object types x 16 frequency indices x 16 channel configurations) is enumerated. One open known finding (explicit-frequency channel configuration) is tolerated by signature.",
+         "conformance judged against the harness author's reading of the specifications", "DESIGN.md 4/C05"),
  "C06": (X, "structure-aware fuzzing: exhaustive single / strided pairwise boundary-value substitution into every field of reference-encoded and canned files, box-tree surgery, prefixes and proptest havoc, through an API driver with a panic/abort oracle in two build profiles",
          "Every generated input is opened (as file, as fragment against two init segments, with segments against it) and every read-side call is made under catch_unwind in a wrapping and an overflow-checked build; process death is attributed to the case and re-confirmed in a fresh process. Search, not proof: absence is shown only for the explored inputs.",
          "trusts the reference encoder for seed files and the field map; inputs <= ~6 KiB", "DESIGN.md 4/C06"),
